@@ -8,6 +8,8 @@ import (
 	"os"
 	"reflect"
 	"strings"
+	"sync"
+	"time"
 )
 
 type value struct {
@@ -89,16 +91,26 @@ func Assume(c bool) {
 	}
 }
 
+var mu sync.Mutex
+
 func Assert(c bool, site string) {
-	Obs = append(Obs, fmt.Sprintf("assert %s %v", site, c))
-	if !c {
+	mu.Lock()
+	defer mu.Unlock()
+	if len(Obs) < 10000 {
+		Obs = append(Obs, fmt.Sprintf("assert %s %v", site, c))
+	}
+	if !c && len(Failed) < 100 {
 		Failed = append(Failed, site)
 	}
 }
 
 func Region(name string, c bool) {}
 
-func Observe(tag string, v string) { Obs = append(Obs, fmt.Sprintf("obs %s %q", tag, v)) }
+func Observe(tag string, v string) {
+	mu.Lock()
+	defer mu.Unlock()
+	Obs = append(Obs, fmt.Sprintf("obs %s %q", tag, v))
+}
 
 func And(cs ...bool) bool {
 	for _, c := range cs {
@@ -315,3 +327,27 @@ func havoc(v reflect.Value, seen map[uintptr]bool, depth int) {
 		}
 	}
 }
+
+// Par2 runs f and g repeatedly on two goroutines (the replay binary is built with -race for C17).
+func Par2(label string, f, g func()) {
+	if Concrete() {
+		f()
+		g()
+		return
+	}
+	var wg sync.WaitGroup
+	deadline := time.Now().Add(1500 * time.Millisecond)
+	for _, h := range []func(){f, g} {
+		h := h
+		wg.Add(1)
+		go func() {
+			defer wg.Done()
+			for i := 0; i < 200000 && time.Now().Before(deadline); i++ {
+				h()
+			}
+		}()
+	}
+	wg.Wait()
+}
+
+func Call(f func()) { f() }
